@@ -37,7 +37,7 @@ PROPS = {
             "resolution for nested expressions."),
         'assumptions': TRUSTED_STRUCT + TRUSTED_ABSINT[3:],
         'quick': [evalnodes.rule_nullstrict, evalnodes.rule_divguard, evalnodes.rule_promote, evalnodes.rule_opsem,
-                  evalnodes.rule_3vl, sx.rule_rowloop, sxk.rule_fromand, sxk.rule_implicitcast],
+                  evalnodes.rule_3vl, sx.rule_rowloop, sxk.rule_fromand, sxk.rule_implicitcast, gr.rule_precmatrix],
         'thorough': [],
     },
     'C02': {
